@@ -137,3 +137,40 @@ def run(tier, seed, escalate=False):
 
 
 replay = P.replay
+
+
+# ------------------------------------------------------------------ the same numbers stored in another dtype
+from oracles import dtype_independence, merge_oracle
+from common import np, dnp
+DTYPE_CASES = [("remove_background", lambda d, dim: dnp.remove_background(d, dim, deg=1), "t2"),
+    ("remove_background-regions", lambda d, dim: dnp.remove_background(d, dim, deg=2, regions=[(0.0, 4.0), (8.0, 14.0)]), "t2"),
+    ("background", lambda d, dim: dnp.background(d, dim, deg=1), "t2"),
+    ("normalize", lambda d, dim: dnp.normalize(d, dim=dim), "t2"), ("normalize-all", lambda d, dim: dnp.normalize(d), "t2"),
+    ("interp", lambda d, dim: dnp.interp(d, dim, np.linspace(0.0, 14.0, 29)), "t2"),
+    ("left_shift", lambda d, dim: dnp.left_shift(d, dim, 2), "t2"), ("ndalign", lambda d, dim: dnp.ndalign(d, dim), "t2")]
+_run_before_dtype = run
+
+
+def run(tier, seed, escalate=False):
+    """… plus: integer / single-precision / complex storage of the values and integer / unsigned / single-precision storage of
+    the processed axis give the result of the float64 object (a dtype the function refuses is not judged)"""
+    res = _run_before_dtype(tier, seed, escalate)
+    f, n = dtype_independence("C14", DTYPE_CASES, seed, dim_positions=(1,) if tier == "quick" and not escalate else (0, 1, 2))
+    return merge_oracle(res, f, n, "storage_dtype_variants")
+
+
+# ------------------------------------------------------------------ the same axis in another unit
+from oracles import axis_scale_independence
+SCALE_CASES = [("interp", lambda d, dim, s: dnp.interp(d, dim, np.array([0.0, 0.4, 1.0, 1.3, 2.2, 3.0, 4.4, 5.0, 6.9, 8.5, 9.0]) * s), "t2", lambda s: 1.0, lambda s: s),
+    ("interp-same-length-shifted", lambda d, dim, s: dnp.interp(d, dim, np.minimum(np.asarray(d.coords[dim]) + 0.25 * s, d.coords[dim][-1])), "t2", lambda s: 1.0, lambda s: s),
+    ("remove_background-regions", lambda d, dim, s: dnp.remove_background(d, dim, deg=1, regions=[(0.0, 2.2 * s), (5.5 * s, 9.5 * s)]), "t2", lambda s: 1.0, lambda s: s),
+    ("left_shift", lambda d, dim, s: dnp.left_shift(d, dim, 3), "t2", lambda s: 1.0, lambda s: s),
+    ("normalize", lambda d, dim, s: dnp.normalize(d, dim=dim), "t2", lambda s: 1.0, lambda s: s)]
+_run_before_scale = run
+
+
+def run(tier, seed, escalate=False):
+    """… plus: the processed axis expressed at scales 1e-9 … 1e6 (coordinate-valued arguments scaled alike)"""
+    res = _run_before_scale(tier, seed, escalate)
+    f, n = axis_scale_independence("C14", SCALE_CASES, seed)
+    return merge_oracle(res, f, n, "axis_scale_variants")
